@@ -51,6 +51,12 @@ class CachingStreamWrapper(io.IOBase):
 
         read_from_raw = self._raw.read(n)
 
+        if read_from_raw is None:  # non-blocking stream has nothing yet
+            if read_from_cache:
+                return read_from_cache
+
+            return None
+
         self._cache.write(read_from_raw)
 
         return read_from_cache + read_from_raw
